@@ -263,30 +263,36 @@ def doMove (T : ZTable) (p0 : Position) (m : Nat) : Position × Nat :=
     (withHistory (setEpAfter T (doMovePieces T (clockStep q m) side m) side moved (moveFrom m) (moveTo m)),
      mkMoveInfo (kindOf (q.at (moveTo m))) q.castling q.ep (decide (kindOf moved = PAWN ∧ moveTo m = q.ep)) q.halfmove)
 
-/-- `Position::undo_move` -/
-def undoMove (T : ZTable) (p0 : Position) (m mi : Nat) : Position :=
-  let p := changeSide T p0
-  let side := p.side
+/-- first half of undo_move (position.cpp:541-555): side, ply counter, castling rights, ep square (with keys), clock -/
+def undoPre (T : ZTable) (q : Position) (mi : Nat) : Position :=
+  let p := changeSide T q
   let p := { p with ply := p.ply - 1 }
   let p := setCastlingKey T { p with castling := miLastCastling mi }
   let e := miLastEp mi
   let p := { p with ep := e, hash := { p.hash with epK := if e = 64 then 0 else T.ep (fileOf e) } }
-  let p := { p with halfmove := miClock mi }
-  let p :=
-    if moveCastling m ≠ 0 then
-      let r := if side = 0 then 0 else 7
-      if moveCastling m = KING_CASTLING then
-        movePiece T (movePiece T p (mkSquare r 6) (mkSquare r 4)) (mkSquare r 5) (mkSquare r 7)
-      else
-        movePiece T (movePiece T p (mkSquare r 2) (mkSquare r 4)) (mkSquare r 3) (mkSquare r 0)
+  { p with halfmove := miClock mi }
+
+/-- second half (position.cpp:557-591): the pieces go back; `side` is the side that made the move -/
+def undoPieces (T : ZTable) (p : Position) (side m mi : Nat) : Position :=
+  if moveCastling m ≠ 0 then
+    let r := if side = 0 then 0 else 7
+    if moveCastling m = KING_CASTLING then
+      movePiece T (movePiece T p (mkSquare r 6) (mkSquare r 4)) (mkSquare r 5) (mkSquare r 7)
     else
-      let f := moveFrom m
-      let t := moveTo m
-      let captured := mkPiece (1 - side) (miCaptured mi)
-      let p := if miIsEp mi then addPiece T p (mkPiece (1 - side) PAWN) (if side = 0 then t - 8 else t + 8) else p
-      let p := if movePromo m ≠ 0 then removePiece T (addPiece T p (mkPiece side PAWN) f) t
-               else movePiece T p t f
-      if captured ≠ 0 then addPiece T p captured t else p
+      movePiece T (movePiece T p (mkSquare r 2) (mkSquare r 4)) (mkSquare r 3) (mkSquare r 0)
+  else
+    let f := moveFrom m
+    let t := moveTo m
+    let captured := mkPiece (1 - side) (miCaptured mi)
+    let p := if miIsEp mi then addPiece T p (mkPiece (1 - side) PAWN) (if side = 0 then t - 8 else t + 8) else p
+    let p := if movePromo m ≠ 0 then removePiece T (addPiece T p (mkPiece side PAWN) f) t
+             else movePiece T p t f
+    if captured ≠ 0 then addPiece T p captured t else p
+
+/-- `Position::undo_move` -/
+def undoMove (T : ZTable) (q : Position) (m mi : Nat) : Position :=
+  let p := undoPre T q mi
+  let p := undoPieces T p p.side m mi
   { p with history := p.history.tail }
 
 /-- `Position::do_null_move` (does not touch the key history) -/
